@@ -65,7 +65,13 @@ type Contract struct {
 	Uses     []string // lemma instantiations "name(args)" assumed at entry (after being proved separately)
 	Ghostsets []GhostSet // ghost assignments executed at every return (ghost code kept in the contract)
 	Before   map[string][]*Clause // call-site assertions keyed by callee, evaluated with the locals visible at the call
+	Joins    []JoinSpec // channel hand-off from a spawned closure (see DESIGN.md 2.3 "Closures and go")
 	OnRecv   []*Clause // ASSUMED of every error value received from a channel in this function ($v); listed as assumption
+}
+
+type JoinSpec struct {
+	ChanLocal string // local variable holding the completion channel
+	Closure   string // contract name of the spawned closure
 }
 
 type GhostSet struct {
@@ -224,7 +230,7 @@ func (db *SpecDB) loadSpecFile(path string, prefix string) error {
 		lines = append(lines, lineT{strings.TrimSpace(t), i + 1})
 	}
 	// join continuation lines: a line that does not start with a directive keyword continues the previous one
-	kw := regexp.MustCompile(`^(contract|stub|rec func|func|ufunc|ghost field|const|axiom|lemma|owner|prop|requires|ensures|invariant|modifies|fresh|loop|trusted|maypanic|pure|nooverflow|inline|thread|use|by induction|ghostset|also|split|before|onrecv)\b`)
+	kw := regexp.MustCompile(`^(contract|stub|rec func|func|ufunc|ghost field|const|axiom|lemma|owner|prop|requires|ensures|invariant|modifies|fresh|loop|trusted|maypanic|pure|nooverflow|inline|thread|use|by induction|ghostset|also|split|before|onrecv|join)\b`)
 	var joined []lineT
 	for _, l := range lines {
 		if kw.MatchString(l.text) || len(joined) == 0 {
@@ -438,6 +444,15 @@ func (db *SpecDB) loadSpecFile(path string, prefix string) error {
 				cur.Before = map[string][]*Clause{}
 			}
 			cur.Before[callee] = append(cur.Before[callee], cl)
+		case strings.HasPrefix(t, "join "):
+			if cur == nil {
+				return fail(l, "join outside contract")
+			}
+			fs := strings.SplitN(strings.TrimPrefix(t, "join "), ":", 2)
+			if len(fs) != 2 {
+				return fail(l, "join <chan local>: <closure contract>")
+			}
+			cur.Joins = append(cur.Joins, JoinSpec{ChanLocal: strings.TrimSpace(fs[0]), Closure: strings.TrimSpace(fs[1])})
 		case strings.HasPrefix(t, "onrecv "):
 			if cur == nil {
 				return fail(l, "onrecv outside contract")
